@@ -275,6 +275,9 @@ def main(argv=None):
             json.dump(dict(property=prop, rule=o['rule'], subject=o['subject'], disc=o['disc'], loc=o['loc'],
                            detail=o['detail'], witness=o.get('witness')), fp, indent=1)
         print('VIOLATION property=%s replay=%s' % (prop, rp))
+    if os.environ.get('STV_SHOW_UND') and not a.verbose:
+        for o in und:
+            print('%-11s %-8s %s %s %s' % (o['verdict'], o['rule'], o['subject'][:100], o['disc'], o['detail'][:300]))
     if a.verbose:
         for o in run.obs:
             if replay is not None and (o['rule'] != replay.get('rule') or o['subject'] != replay.get('subject')):
